@@ -44,6 +44,17 @@ Value& MemberCONCATExpression::value(Context& ctx) const
      * type, calling ctx.storeVariable(symbol, value) */
     if (val.isNull())
     {
+      /* a null table of a known type stays a table of that type: it takes a
+       * table of its own type, or (one dimension) an element of its type */
+      if (val.type() != Type::NO_TYPE && a0.type() != Type::NO_TYPE)
+      {
+        const Type& vt = val.type();
+        const Type& at = a0.type();
+        bool same = (at.major() == vt.major()
+                && (at.minor() == vt.minor() || at.major() == Type::ROWTYPE));
+        if (!same || (at.level() != vt.level() && (at.level() != 0 || vt.level() != 1)))
+          throw RuntimeError(EXC_RT_TYPE_MISMATCH_S, vt.levelDown().typeName().c_str());
+      }
       if (a0.type().level() > 0) /* null + tab */
       {
         if (a0.isNull())
